@@ -50,6 +50,16 @@ type Inst struct {
 	// (synchronous) instrument's streams; a measurement that carries it
 	// (Meas.Ex 2 or 3) hands it to the exemplar as a filtered attribute.
 	ExDrop bool `json:"ex_drop,omitempty"`
+	// HasBounds: the (synchronous, explicit-bucket) histogram is created with
+	// WithExplicitBucketBoundaries(Bounds...) - possibly none at all.
+	// BoundsView: the boundaries are set by a View instead (always so when
+	// there are none: the instrument option ignores an empty list).
+	HasBounds  bool  `json:"has_bounds,omitempty"`
+	Bounds     []int `json:"bounds,omitempty"`
+	BoundsView bool  `json:"bounds_view,omitempty"`
+	// ObsFail (observable instruments): the callback returns an error after it
+	// has reported all (1) or only the first half (2) of its observations.
+	ObsFail int `json:"obs_fail,omitempty"`
 	// Obs[r][t] is what the callback of an observable instrument reports in
 	// round r for tuple t (same scaling as Meas.V).
 	Obs [][]int `json:"obs,omitempty"`
@@ -99,6 +109,15 @@ type Case struct {
 	FirstScrapers int   `json:"first_scrapers,omitempty"`
 	FirstReps     int   `json:"first_reps,omitempty"`
 	FirstPerturb  []int `json:"first_perturb,omitempty"`
+
+	// fresh_process sub-check only (see fresh_test.go): Procs fresh child
+	// processes each run the first-use program; FirstLive: the rounds after the
+	// first are measured BY goroutines released together with the scrapers
+	// instead of before them; Rendezvous: the first observable callback of each
+	// exporter's first collection waits until every exporter is being collected.
+	Procs      int  `json:"procs,omitempty"`
+	FirstLive  bool `json:"first_live,omitempty"`
+	Rendezvous bool `json:"rendezvous,omitempty"`
 
 	Conc        bool `json:"conc"`
 	Gatherers   int  `json:"gatherers,omitempty"`    // concurrent cases: goroutines calling Gather
@@ -326,6 +345,16 @@ func genInst(t *rapid.T, idx, base, nscopes, rounds int, prev *Inst) Inst {
 		in.ExpScale = rapid.SampledFrom([]int{20, 3, 0, -2}).Draw(t, "expscale")
 		in.ExpSign = rapid.SampledFrom([]int{2, 2, 0, 1}).Draw(t, "expsign")
 	}
+	if isHist(in.Kind) && in.ExpSize == 0 && rapid.IntRange(0, 2).Draw(t, "custombounds") == 1 {
+		// boundaries of the caller's choosing: none, one, negative ones, ones
+		// that sit on the generated values
+		in.HasBounds = true
+		in.Bounds = rapid.SampledFrom([][]int{{}, {10}, {0}, {-5, 0, 5}, {1, 5, 6, 10, 25, 26}, {0, 1}, {100, 10000, 10001}, {5, 10, 25, 50, 75, 100, 250, 500, 750, 1000, 2500, 5000, 7500, 10000, 20000, 40000}}).Draw(t, "bounds")
+		in.BoundsView = rapid.IntRange(0, 2).Draw(t, "boundsview") == 0
+	}
+	if isObservable(in.Kind) && rapid.IntRange(0, 5).Draw(t, "obsfail") == 3 {
+		in.ObsFail = rapid.IntRange(1, 2).Draw(t, "obsfailhow")
+	}
 	if !isObservable(in.Kind) && rapid.IntRange(0, 3).Draw(t, "exdrop") == 2 {
 		in.ExDrop = true
 	}
@@ -363,6 +392,20 @@ func genInst(t *rapid.T, idx, base, nscopes, rounds int, prev *Inst) Inst {
 		for j := range in.Keys {
 			in.Tuples[i][j] = rapid.SampledFrom(attrVals).Draw(t, "tv")
 		}
+	}
+	if len(in.Keys) > 0 && rapid.IntRange(0, 8).Draw(t, "typedcol") == 2 {
+		// one attribute of the instrument holds values that are not strings
+		kj := rapid.IntRange(0, len(in.Keys)-1).Draw(t, "typedkj")
+		for i := range in.Tuples {
+			in.Tuples[i][kj] = rapid.SampledFrom(typedVals).Draw(t, "typedval")
+		}
+	}
+	if len(in.Keys) > 0 && rapid.IntRange(0, 15).Draw(t, "spoiltuple") == 11 {
+		// one value of one attribute set is not valid UTF-8: that series cannot
+		// be represented, its neighbours can
+		ti := rapid.IntRange(0, nt-1).Draw(t, "spoilti")
+		kj := rapid.IntRange(0, len(in.Keys)-1).Draw(t, "spoilkj")
+		in.Tuples[ti][kj] = rapid.SampledFrom(badStrings).Draw(t, "spoilval")
 	}
 	if rapid.IntRange(0, 39).Draw(t, "odd") == 17 {
 		in.Odd = true
@@ -474,8 +517,8 @@ func genConflicts(t *rapid.T, c *Case, base, rounds int) {
 		if p.Name == o.Name {
 			// a View is addressed by instrument name: keep views away from
 			// instruments that share one (two matching views = two streams)
-			p.ExpSize, p.ExDrop = 0, false
-			c.Insts[oi].ExpSize, c.Insts[oi].ExDrop = 0, false
+			p.ExpSize, p.ExDrop, p.HasBounds = 0, false, false
+			c.Insts[oi].ExpSize, c.Insts[oi].ExDrop, c.Insts[oi].HasBounds = 0, false, false
 		}
 		c.Insts = append(c.Insts, p)
 	}
@@ -524,6 +567,12 @@ func genTwins(t *rapid.T, c *Case, base, rounds int) {
 // regenObs makes Obs consistent with a kind that was changed after genInst.
 func regenObs(t *rapid.T, in Inst, rounds int) Inst {
 	in.Obs = nil
+	if !isObservable(in.Kind) {
+		in.ObsFail = 0
+	}
+	if !isHist(in.Kind) || isObservable(in.Kind) {
+		in.HasBounds, in.Bounds = false, nil
+	}
 	if isObservable(in.Kind) {
 		in.ExpSize, in.ExDrop = 0, false
 		in.Obs = make([][]int, rounds)
@@ -587,6 +636,13 @@ func genCase(conc bool, conflicts int) func(t *rapid.T) Case {
 			c.Namespace = rapid.SampledFrom(nsChoices).Draw(t, "namespace")
 		}
 		c.Resource = genAttrs(t, resKeys, attrVals, 4, "res")
+		if rapid.IntRange(0, 5).Draw(t, "typedres") == 3 {
+			c.Resource = append(c.Resource, Attr{K: "res.n", V: rapid.SampledFrom(typedVals).Draw(t, "typedresval")})
+		}
+		if rapid.IntRange(0, 9).Draw(t, "spoilres") == 4 {
+			// a resource Prometheus cannot represent (see unrep_test.go)
+			c.Resource = genSpoil(t, c.Resource, "host.name", "spoilres")
+		}
 		rf := rapid.IntRange(0, 9).Draw(t, "resfilter")
 		if conc {
 			rf += 3 // the resource label cache is the shared state of concurrent scrapes
@@ -598,7 +654,17 @@ func genCase(conc bool, conflicts int) func(t *rapid.T) Case {
 			c.ResFilter = "allow"
 		}
 		if c.ResFilter != "" {
-			c.ResFilterKeys = rapid.SliceOfNDistinct(rapid.SampledFrom(append([]string{"nope"}, resKeys...)), 0, 4, rapid.ID[string]).Draw(t, "rfkeys")
+			pool := append([]string{"nope"}, resKeys...)
+			for _, a := range c.Resource {
+				known := false
+				for _, k := range resKeys {
+					known = known || k == a.K
+				}
+				if !known {
+					pool = append(pool, a.K)
+				}
+			}
+			c.ResFilterKeys = rapid.SliceOfNDistinct(rapid.SampledFrom(pool), 0, 4, rapid.ID[string]).Draw(t, "rfkeys")
 		}
 		// 1..3 scopes; names may repeat (then versions / attributes differ).
 		// Scope attributes come from a pool with the exporter's own reserved
@@ -619,6 +685,12 @@ func genCase(conc bool, conflicts int) func(t *rapid.T) Case {
 				for _, k := range keys {
 					s.Attrs = append(s.Attrs, Attr{K: k, V: rapid.SampledFrom(scopeAttrVals).Draw(t, "sav")})
 				}
+			}
+			if rapid.IntRange(0, 7).Draw(t, "typedscope") == 5 {
+				s.Attrs = append(s.Attrs, Attr{K: "sa.n", V: rapid.SampledFrom(typedVals).Draw(t, "typedscopeval")})
+			}
+			if rapid.IntRange(0, 15).Draw(t, "spoilscope") == 9 {
+				s.Attrs = genSpoil(t, s.Attrs, "sa.raw", "spoilscope")
 			}
 			for _, prev := range c.Scopes {
 				if sameScopeData(prev, s) {
